@@ -348,6 +348,55 @@ def make_nonnumeric():
                       bounds=f"{len(cases)} concrete non-int / non-numeric representatives, one factor at a time", theory="concrete")
 
 
+def make_wiring():
+    """a slice of the running clause that needs no run: after an accepted construction the pipeline steps agree on clustering - every step
+    told to cluster holds the clustering model (with fit/predict), all such steps share ONE model, and no step holds one when clustering is
+    off. Options: clustering symbolic, n_max_clusters None or a symbolic positive integer, kernel/resampler symbolic."""
+
+    def harness(ctx: PathCtx):
+        clustering = bool(boolean(ctx, "clustering"))
+        has_cap = bool(boolean(ctx, "has_n_max_clusters"))
+        cap = integer(ctx, "n_max_clusters", lo=1, hi=3).resolve(1, 3) if has_cap else None
+        sample = "rwm" if bool(boolean(ctx, "sample_is_rwm")) else "tpcn"
+        with warnings.catch_warnings():
+            warnings.simplefilter("ignore")
+            smp = Sampler(lambda u: u, lambda x: 0.0, n_dim=2, clustering=clustering, n_max_clusters=cap, sample=sample)
+        core = smp._core
+        steps = {n_: getattr(core, n_) for n_ in ("reweighter", "trainer", "resampler", "mutator") if hasattr(core, n_)}
+        told = {n_: bool(getattr(o, "clustering")) for n_, o in steps.items() if hasattr(o, "clustering")}
+        held = {n_: getattr(o, "clusterer") for n_, o in steps.items() if hasattr(o, "clusterer")}
+        ctx.check("steps-are-told-the-configured-clustering-flag", z3.BoolVal(all(v == clustering for v in told.values()) and len(told) >= 1), detail=told)
+        ok = all((held.get(n_) is not None and hasattr(held[n_], "predict") and hasattr(held[n_], "fit")) for n_, v in told.items() if v and n_ in held)
+        ctx.check("a-step-told-to-cluster-holds-a-clustering-model", z3.BoolVal(bool(ok)), detail={k: type(v).__name__ for k, v in held.items()})
+        models = [id(v) for n_, v in held.items() if v is not None]
+        ctx.check("all-steps-share-one-clustering-model", z3.BoolVal(len(set(models)) <= 1))
+        return None
+
+    def replay(m, label, v):
+        clustering = bool(m.get("clustering", True))
+        cap = int(m.get("n_max_clusters", 1)) if bool(m.get("has_n_max_clusters", False)) else None
+        sample = "rwm" if bool(m.get("sample_is_rwm", False)) else "tpcn"
+        err = None
+        saved = np.random.get_state()
+        try:
+            with warnings.catch_warnings():
+                warnings.simplefilter("ignore")
+                np.random.seed(3)
+                smp = Sampler(lambda u: u, lambda x: -0.5 * float(np.sum(((x - 0.5) / 0.1) ** 2)), n_dim=2, n_particles=32, clustering=clustering, n_max_clusters=cap, sample=sample)
+                smp.run(n_total=64, progress=False)
+        except Exception as e:
+            err = e
+        finally:
+            np.random.set_state(saved)
+        return {"reproduced": err is not None and not isinstance(err, np.linalg.LinAlgError), "signature": "config:accepted-but-steps-disagree-on-clustering",
+                "payload": {"clustering": clustering, "n_max_clusters": cap, "sample": sample, "error": repr(err)},
+                "what": f"Sampler(n_dim=2, clustering={clustering}, n_max_clusters={cap}, sample={sample!r}) is accepted; run() -> {type(err).__name__ + ': ' + str(err)[:150] if err else 'completes'}"}
+
+    return Obligation("wiring-clustering", harness, replay=replay, encodes=[core_mod.SamplerCore.__init__],
+                      bounds="clustering symbolic, n_max_clusters None or in [1,3], kernel symbolic, other options default, n_dim=2",
+                      stubs=["replay runs the accepted configuration on a Gaussian target (32 particles, n_total=64); LinAlgError is the separate known finding"], theory="QF_LIA")
+
+
 def obligations(tier):
     vs = [(1, 1, 0, 0, False), (0, 0, 1, 1, False), (0, 0, 0, 0, True), (0, 0, 2, 0, False)]
     if tier == "thorough":
@@ -355,4 +404,4 @@ def obligations(tier):
     # a slice of the running clause ("every combination of valid option values runs to completion without raising"): the training step
     # under every partition of the pool (C14's harness; reports a known finding)
     from vf.props.c14 import make_completes
-    return [make_config(v) for v in vs] + [make_nonnumeric(), make_completes(1, 4, 2)]
+    return [make_config(v) for v in vs] + [make_nonnumeric(), make_wiring(), make_completes(1, 4, 2)]
